@@ -21,6 +21,7 @@ CONTRACT_MODULES = [
     "contracts.p2p_rdac",
     "contracts.tracker",
     "contracts.hytera",
+    "contracts.motorola",
 ]
 
 TRUSTED_BASE = [
@@ -131,6 +132,12 @@ PROPS = {
         explanation="contracts HDAP.as_bytes, HDAP.get_hdap_checksum, HRNP.as_bytes, HRNP.verify_checksum, HSTRP.as_bytes; bounded: GPSData.as_bytes, TextMessageProtocol.text_as_str",
         bounded_parts=["GPSData.as_bytes / from_bytes: literal values on the representable grid", "TextMessageProtocol text given as str: 8 seeded texts"],
         assumptions=["an HSTRP option flag is set exactly when the option list is not empty (in-range precondition)"],
+    ),
+    "C16": dict(
+        level_text="Per-function contracts, proved for all symbolic contents per literal length: TMS service availability (with / without capability header), acknowledgement (with / without acknowledged sequence number) and simple text message (sequence number 0..127 symbolic, encoding none / UCS-2, message and address symbolic octets) built from fields with all first-header flags symbolic: leading length = octets that follow, first header octet, address field, optional header = 1 or 2 octets exactly as the sequence number / encoding require with the 5 + 2 bit split, message placement; from_bytes gives equal fields (incl. every header flag) and the same octets again. ARS acknowledgement (refresh time 1..127 / failure reason / no second header), status query, de-registration notice with all flags symbolic, with and without CSBK trailer: leading length, __len__, first header octet, trailer exactly when flagged, second header octet, fields, re-serialisation.",
+        level_note="Bounded (native enumeration, never counted as proved): ARS device / user registration requests - identifiers and passwords are str objects (UTF-8), 14 seeded strings incl. multi-octet characters, control characters and 255-octet values in 120 (T: 4000) seeded combinations with flags / request header / trailer, plus each string once per position. Literal lengths: address 0, 3 (T: ..255), message 0, 6 (T: ..400) octets. The second ARS response header carries ONE octet whose meaning the first header selects: the contract compares the selected field (refresh time or failure reason), not the unused alternative.",
+        explanation="contracts TextMessagingService.as_bytes, AutomaticRegistrationService.as_bytes; bounded: AutomaticRegistrationService.registration_strings",
+        bounded_parts=["ARS registration request identifiers / passwords: seeded strings"],
     ),
     "C18": dict(
         level_text="Inductive proof over datagram histories: ONE datagram (registration / DMR start-up / RDAC start-up / ping / ack / unknown command / truncated command / garbage, literal prefixes with symbolic filler octets) from one of three peers, delivered to the P2P handler over a storage pre-state in which each peer is absent / present-unregistered / present-registered: acceptance, redirect and ping answers only for a source registered in the pre-state and only to its stored outbound address or the requester; exactly the single-byte reject to the requester otherwise; only a registration creates or registers; other peers' records untouched. RDAC: one datagram (1-byte reset / the expected response with symbolic body / an unexpected response / garbage) for every step 0..14: the step advances only on the expected response, a reset restarts (step 1, one STEP0 request to that peer), another peer's step never changes, completion callback exactly on 13 -> 14 with that peer's record id.",
